@@ -249,6 +249,7 @@ class World {
         void opMkVar(const Step &s);
         void opMkMinterm(const Step &s);
         void opMkColl(const Step &s, bool useMax);
+        void opMkGraph(const Step &s);
         void opBinary(const Step &s);
         void opComplement(const Step &s);
         void opCopy(const Step &s);
